@@ -38,4 +38,8 @@ PROPS = {
     "C13": {"level_text": "Determinism over Go's map iteration order is proved for all maps (any permutation of the entries sorts to the same key list: C13_deterministic_tags/_udh); stability is proved in the form: what Marshal wrote decodes, under any fragmentation, to the value Marshal left with empty TLVs dropped (C13_redecode_partial). The second re-encoding being byte-identical, and decoder output being well-formed, are checked differentially only (reenc op), not yet mechanised.",
             "level_note": PDU_NOTE + " Partial as stated in level_text.",
             "rule": "reenc = ReadPDU -> Marshal -> ReadPDU -> Marshal x8 on valid and mutated frames of every type; det = 16 re-marshals of values with 2..50 TLVs after rebuilding the maps"},
+    "C20": {"rule": "esm/regdlv/ifver: all 256 octets (exhaustive); time strings: full product of the boundary values named in the property (year 00/99, month 1/12, day 1/28-31, hour 0/23, minute and second 0/59, tenth 0/9, offset 0/1/48, both signs) parsed AND formatted, plus random valid strings, malformed/out-of-calendar strings, random instants incl. out-of-domain years/offsets/nanoseconds; durations on random grid points, unit boundaries +-1 tenth, out-of-domain values",
+            "level_text": "Octet codecs: identity and bit positions for all 256 values by kernel evaluation, positions stated arithmetically (and equal to the independent Spec encoders). Time: format->parse and parse->format are Lean theorems for EVERY valid civil date of 2000-2099 x every tenth x every quarter-hour offset within +-12h, resting on an exhaustive kernel check of the day-number calendar over all 36525 days; duration round trip for every period 1 s .. <100 y at 0.1 s resolution by mixed-radix arithmetic (omega).",
+            "level_note": "Model of pdu/time.go, interface_version.go, esm_class.go, registered_delivery.go; the literal ingredients (format strings, argument order, multipliers, slices, bit statements) are regenerated and compared by decide. Trusted and validated differentially: that Go's time.Date + accessors equal GoDate.norm (also on out-of-calendar input), strconv.ParseInt and fmt %02d/%d models, encoding/json quoting.",
+            "exhaustive_note": "256 x 3 octet cases enumerated completely"},
 }
